@@ -175,13 +175,13 @@ def calc_explicit_padding(input_size, stride, filter_size, pad_before, pad_after
     Based on explicit padding provided in a PAD operation, returns the corresponding hardware padding
     that provides equivalent results.
     """
-    total_padding = needed_total_padding(input_size, stride, filter_size)
-
-    # The bottom/right padding might need downward adjustment depending on stride/input size
-    total_minus_before = total_padding - pad_before
-    output_pad_after = pad_after
-    while output_pad_after > 0 and output_pad_after % stride != total_minus_before % stride:
-        output_pad_after -= 1
+    # The bottom/right padding might need downward adjustment depending on stride/input size: the hardware derives the
+    # extent of the IFM from the OFM extent, kernel, stride and padding, so the padding after the input must be exactly
+    # the part of the PAD that the last window of the (VALID) operation over the padded input reaches
+    padded_size = input_size + pad_before + pad_after
+    output_size = max((padded_size - filter_size) // stride + 1, 1)
+    covered_size = (output_size - 1) * stride + filter_size
+    output_pad_after = min(pad_after, max(covered_size - pad_before - input_size, 0))
     return pad_before, output_pad_after
 
 
